@@ -82,19 +82,41 @@ func (c *Check) floor(name string, expected, found int) {
 }
 
 // pgOf builds (and caches) the product graph of a product function.
-func (c *Check) pgOf(name string) *PG {
-	if pg, ok := c.graphs[name]; ok {
+func (c *Check) pgOf(name string) *PG { return c.pgOfNI(name) }
+
+// pgOfNI: as pgOf, with the listed in-module callees left as opaque calls.
+func (c *Check) pgOfNI(name string, noInline ...string) *PG {
+	ck := name
+	if len(noInline) > 0 {
+		ck = name + " !" + strings.Join(noInline, ",")
+	}
+	saved := c.noInline
+	if len(noInline) > 0 {
+		c.noInline = map[string]bool{}
+		for k, v := range saved {
+			c.noInline[k] = v
+		}
+		for _, n := range noInline {
+			c.noInline[n] = true
+		}
+	}
+	defer func() { c.noInline = saved }()
+	return c.pgOfKey(ck, name)
+}
+
+func (c *Check) pgOfKey(ck, name string) *PG {
+	if pg, ok := c.graphs[ck]; ok {
 		return pg
 	}
 	fs := c.P.fn(name)
 	if fs == nil {
 		c.undecided("anchor", name, "anchor function does not resolve", "")
-		c.graphs[name] = nil
+		c.graphs[ck] = nil
 		return nil
 	}
 	g := buildGraph(c.P, fs, c.depth, c.noInline)
 	pg := explore(g)
-	c.graphs[name] = pg
+	c.graphs[ck] = pg
 	c.Funcs[name] = true
 	for _, in := range g.Insts {
 		if in.Fn != nil {
